@@ -1446,6 +1446,20 @@ def b_max(I, args, kwargs, node):
 
 
 def b_enumerate(I, args, kwargs, node):
+    seq, k = seq_and_kind(I, args[0], node)
+    if seq is not None and not z3.is_int_value(z3.simplify(z3.Length(seq))):
+        # symbolic length: a fresh sequence of the same length whose elements are (index, element) pairs,
+        # characterised when an element is read by a loop
+        I.counter += 1
+        R = z3.Const(f"enumseq~{I.counter}", V.SeqVal)
+        I.assume(z3.Length(R) == z3.Length(seq))
+        if not hasattr(I, "seq_axioms"):
+            I.seq_axioms = {}
+
+        def axiom(I2, i, e):
+            I2.assume(e == V.VTuple([V.VInt(i), seq[i]]))
+        I.seq_axioms[R.get_id()] = axiom
+        return V.VList(R)
     elems = concrete_elems(I, args[0], node)
     return V.VList([V.VTuple([V.VInt(i), e]) for i, e in enumerate(elems)])
 
